@@ -464,10 +464,48 @@ def r08b(P, R):
         else:
             R.holds("R08-b", key, "structural recursion over the syntax tree / type wrappers (%s)" % ", ".join(short(c) for c in comp[:3]), loc=P.fns[comp[0]].loc())
     R.floor("R08-b", "recursive cycles", len(sccs), 10)
-    # the guards themselves
+    # the guards themselves: wherever a directly recursive function of a reachable cycle tests the spread's fragment name against a
+    # seen-collection that is one of its *parameters*, (1) that test exists, and (2) every recursive call hands down a collection that
+    # still contains what the caller had seen (derives from that parameter) — a collection restarted at each level only catches
+    # direct self-recursion, and a cycle of length two recurses until the stack overflows
+    n_guards = 0
+    for comp in sccs:
+        for p in comp:
+            f = P.fns[p]
+            if f.derived or "::tests" in p:
+                continue
+            pv = None
+            for c in f.walk():
+                if not (c.get("k") == "MethodCall" and c["method"] in ("contains", "any", "position")):
+                    continue
+                pv = pv or Prov(f)
+                if not has_field(pv.atoms(c["args"]), "nitrogql_ast::selection_set::FragmentSpread", "fragment_name"):
+                    continue
+                holders = [a[1] for a in pv.atoms(c["recv"]) if a[0] == "param"]
+                names = [pv.params.get(b.get("local")) if b.get("k") == "Binding" else None for b in f.params]
+                idxs = [i for i, nm in enumerate(names) if nm in holders and "&mut" not in str(f.params[i].get("t", ""))]
+                if len(idxs) != 1:
+                    continue
+                n_guards += 1
+                i = idxs[0]
+                rec = [x for x in f.walk() if x.get("k") == "Call" and call_name(x) == f.path and len(x["args"]) == len(f.params)]
+                for j, x in enumerate(rec):
+                    a = pv.atoms(x["args"][i])
+                    if not has_field(a, "nitrogql_ast::selection_set::FragmentSpread", "fragment_name") and ("param", names[i]) in a:
+                        continue        # a call that does not enter a fragment passes the collection on unchanged
+                    R.check("R08-b", "seen-accumulates:%s#%d" % (short(p), j), ("param", names[i]) in a,
+                            "the seen-collection handed to the recursive call still contains what the caller had seen",
+                            "%s hands its recursive call a seen-collection that does not derive from its own `%s` (it is restarted at each level): "
+                            "only direct self-recursion is detected, a fragment cycle of length two (`F { ...G } G { ...F }`) recurses until the "
+                            "stack overflows and the process aborts" % (p, names[i]), loc=f.loc())
+                break
+    R.floor("R08-b", "seen-collections passed down a recursion", n_guards, 1)
     for p in ("nitrogql_checker::operation_checker::count_selection_set_fields::selection_set_has_more_than_one_fields_impl",
               "nitrogql_printer::operation_type_printer::selection_set_visitor::visit_fields_in_selection_set_impl"):
-        f = P.fn(p)
+        f = P.fn(p, required=False)
+        if f is None:
+            R.undecided("R08-b", "guard:" + short(p), "function not found")
+            continue
         pv = Prov(f)
         cs = [c for c in f.walk() if c.get("k") == "MethodCall" and c["method"] == "contains"]
         ok = bool(cs) and has_field(pv.atoms(cs[0]["args"][0]), "nitrogql_ast::selection_set::FragmentSpread", "fragment_name")
